@@ -3,7 +3,7 @@
 
 An alarm of check Q on a change seeded for property P != Q is not automatically a false alarm - many changes
 break several properties - but every such cell has to be explained.  Output: /verif/seeded/cross_matrix.json
-and a text table.  usage: cross_matrix.py [--scale 0.1] [--only C02-1,C03-2] [--checks C02,C07]
+and a text table.  usage: cross_matrix.py [--own] [--scale 0.1] [--only C02-1,C03-2] [--checks C02,C07]
 """
 import json
 import os
@@ -34,6 +34,7 @@ def main():
     matrix = {}
     if os.path.exists(out_path):
         matrix = json.load(open(out_path))
+    own = "--own" in sys.argv  # only the check of the property the change was made against
     jobs = int(arg("--jobs", "4"))
     workers = arg("--workers", str(max(2, 16 // jobs)))
     import threading
@@ -42,7 +43,7 @@ def main():
     lock = threading.Lock()
 
     def one(name):
-        if name in matrix and all(c in matrix[name] for c in checks):
+        if name in matrix and all(c in matrix[name] for c in ([name.split("-")[0]] if own else checks)):
             return
         wt = f"/tmp/xm_{sub}_{name}"
         sh(["git", "-C", "/repo", "worktree", "remove", "--force", wt])
@@ -55,7 +56,7 @@ def main():
                 print(name, "patch does not apply", r.stderr[:200], flush=True)
                 return
             row = {}
-            for c in checks:
+            for c in ([name.split("-")[0]] if own else checks):
                 env = dict(os.environ, VERIF_REPO=wt, VERIF_SCALE=scale, VERIF_NO_RESAMPLE="1", VERIF_WORKERS=workers,
                            VERIF_EVIDENCE_DIR=wt + "_ev", VERIF_REPLAY_DIR=wt + "_rp")
                 t0 = time.monotonic()
@@ -68,7 +69,7 @@ def main():
                 shutil.rmtree(wt + "_rp", ignore_errors=True)
             with lock:
                 matrix[name] = row
-                print(name, " ".join(f"{c}:{'X' if row[c]['rc'] == 1 else '.' if row[c]['rc'] == 0 else 'E'}" for c in checks), flush=True)
+                print(name, " ".join(f"{c}:{'X' if row[c]['rc'] == 1 else '.' if row[c]['rc'] == 0 else 'E'}" for c in row), flush=True)
                 json.dump(matrix, open(out_path, "w"), indent=1, sort_keys=True)
         finally:
             with lock:
